@@ -182,6 +182,9 @@ type result struct {
 // readAllHook, when set, runs before every Read of readAll (a test's way of touching the reader between calls).
 var readAllHook func(rd *frame.Reader, call int)
 
+// readAllGot, when set, is handed every frame readAll receives, right after the Read that returned it.
+var readAllGot func(fr frame.Frame, call int)
+
 func readAll(cr *chunkReader, drw *dialect.ReadWriter, key *frame.V2Key, maxCalls int) ([]result, error, error) {
 	br := bufio.NewReaderSize(cr, readBufSize)
 	rd := &frame.Reader{BufByteReader: br, DialectRW: drw, InKey: key}
@@ -221,6 +224,9 @@ func readAll(cr *chunkReader, drw *dialect.ReadWriter, key *frame.V2Key, maxCall
 		}
 		if fr == nil {
 			return out, nil, fmt.Errorf("nil frame with nil error")
+		}
+		if readAllGot != nil {
+			readAllGot(fr, calls)
 		}
 		out = append(out, r)
 	}
